@@ -385,4 +385,30 @@ Section Spine.
           -- apply single_jfree; auto.
           -- apply IHr; auto.
   Qed.
+
+  Lemma shape_okb t : okb t = true -> nextfree t = true -> NoDup (ids t) ->
+    forall B, parent_of B < length Bs -> Shape selof Cs Bs t B.
+  Proof.
+    destruct t as [id cs c | id s l r]; intros Hok Hnf Hnd B Hp; [exact I|].
+    assert (Hndl : NoDup (ids l)) by (cbn [ids] in Hnd; apply NoDup_cons_iff in Hnd; destruct Hnd as [_ Hnd]; apply nodup_app_l in Hnd; exact Hnd).
+    assert (Hndr : NoDup (ids r)) by (cbn [ids] in Hnd; apply NoDup_cons_iff in Hnd; destruct Hnd as [_ Hnd]; apply nodup_app_r in Hnd; exact Hnd).
+    assert (Hp' : parent_of (snd (pe2 Bs l B)) < length Bs) by (rewrite pe2_parent; exact Hp).
+    destruct s; simpl in Hnf; try discriminate; apply andb_prop in Hnf; destruct Hnf as [Hnl Hnr]; simpl in Hok.
+    - apply exc_shape; auto.
+      + apply orb_prop in Hok. destruct Hok as [H|H]; apply andb_prop in H; destruct H as [H1 H2].
+        * apply single_okb; auto.
+        * apply single_jfree; auto.
+      + apply orb_prop in Hok. destruct Hok as [H|H]; apply andb_prop in H; destruct H as [H1 H2].
+        * apply single_I. apply single_jfree; auto.
+        * apply orb_prop in H2. destruct H2 as [H2|H2].
+          -- apply single_I. apply single_okb; auto.
+          -- apply proto_I. apply proto_spine; auto.
+    - apply alt_shape; auto.
+      + apply orb_prop in Hok. destruct Hok as [H|H]; apply andb_prop in H; destruct H as [H1 H2].
+        * apply single_okb; auto.
+        * apply single_jfree; auto.
+      + apply orb_prop in Hok. destruct Hok as [H|H]; apply andb_prop in H; destruct H as [H1 H2].
+        * apply single_jfree; auto.
+        * apply single_okb; auto.
+  Qed.
 End Spine.
